@@ -106,12 +106,12 @@ func c18r2(r *R) {
 	fn := r.method(mpkg+"/header", "ViaModifier", "ModifyRequest")
 	// the value searched
 	for _, c := range calls(fn, nameIs("strings.Contains")) {
-		d := describe(c.Common().Args[0])
+		d := describe(refArgs(c.Common())[0])
 		all := strings.Contains(d, `(net/http.Header).Values($1.Header, "Via")`) || strings.Contains(d, `$1.Header["Via"]`)
 		r.check(all && !strings.Contains(d, "Header).Get("), "ViaModifier#searched-chain", c.Pos(), "searches "+d, "the loop test searches "+d+": Header.Get returns only the first Via field line, a tag on a later line is missed")
 	}
 	for _, c := range calls(fn, nameIs("(net/http.Header).Get")) {
-		if k, _ := constString(c.Common().Args[1]); k == "Via" {
+		if k, _ := constString(refArgs(c.Common())[1]); k == "Via" {
 			r.bad("ViaModifier#Get(Via)", c.Pos(), "Via read with Header.Get: only the first field line is seen and Set then drops the others")
 		}
 	}
@@ -119,11 +119,11 @@ func c18r2(r *R) {
 	fm := r.fn(mpkg+"/header", "NewForwardedModifier")
 	for _, lit := range anonFuncs(fm) {
 		for _, c := range calls(lit, nameIs("(net/http.Header).Set")) {
-			k, _ := constString(c.Common().Args[1])
+			k, _ := constString(refArgs(c.Common())[1])
 			if k != "X-Forwarded-For" {
 				continue
 			}
-			d := describe(c.Common().Args[2])
+			d := describe(refArgs(c.Common())[2])
 			good := strings.Contains(d, `(net/http.Header).Values($0.Header, "X-Forwarded-For")`) && !strings.Contains(d, `(net/http.Header).Get($0.Header, "X-Forwarded-For")`)
 			r.check(good, "ForwardedModifier#X-Forwarded-For", c.Pos(), "new value built from every existing field line", "X-Forwarded-For rebuilt from Header.Get: later field lines are dropped")
 		}
@@ -215,13 +215,13 @@ func c18r5(r *R) {
 	ms := r.method(".", "HTTPProxy", "middlewareStack")
 	ok := false
 	for _, c := range calls(ms, nameIs("martian/httpspec.NewStack")) {
-		ok = describe(c.Common().Args[0]) == "$0.config.Name"
+		ok = describe(refArgs(c.Common())[0]) == "$0.config.Name"
 	}
 	// the CONNECT sent to an upstream proxy carries the client's (already modified, Via-tagged) CONNECT header
 	dl := r.method("dialvia", "HTTPProxyDialer", "DialContextR")
 	var base, dyn *ssa.Call
 	for _, c := range calls(dl, nameIs("maps.Copy")) {
-		switch d := describe(c.Common().Args[1]); {
+		switch d := describe(refArgs(c.Common())[1]); {
 		case d == "$0.ProxyConnectHeader":
 			base = c.(*ssa.Call)
 		case strings.HasPrefix(d, "dyn:$0.GetProxyConnectHeader("):
@@ -232,7 +232,7 @@ func c18r5(r *R) {
 	for _, c := range calls(dl, nameIs("(*net/http.Request).Write")) {
 		wr = c.(ssa.Instruction)
 	}
-	merged := base != nil && wr != nil && instrDominates(base, wr) && (dyn == nil || before(base, dyn) && describe(base.Common().Args[0]) == describe(dyn.Common().Args[0]))
+	merged := base != nil && wr != nil && instrDominates(base, wr) && (dyn == nil || before(base, dyn) && describe(refArgs(base.Common())[0]) == describe(refArgs(dyn.Common())[0]))
 	r.check(merged, "DialContextR#connect-header", dl.Pos(), "ProxyConnectHeader copied into the CONNECT request on every path; dynamic headers are merged over it", "the client's CONNECT header (with this instance's Via element) does not always reach the upstream proxy: dynamic connect headers replace it instead of being merged")
 	r.check(ok, "middlewareStack#NewStack(name)", ms.Pos(), "stack built with the configured proxy name", "the production stack is not built by httpspec.NewStack(config.Name)")
 }
